@@ -167,12 +167,16 @@ fn load_store(rec: &mut Rec, bpp: usize, order: usize, buf: &[u8], ixs: &[usize]
     for &ix in ixs {
         for &v in vals {
             let mut b = buf.to_vec();
+            // the raw value is built with RawData::from_u32; every second time the argument carries bits above the bit
+            // depth, which the constructor has to drop (a value that keeps them spills into its neighbours on store)
+            let garbage = if bpp < 32 && ix.wrapping_add(v as usize) % 2 == 1 { ((ix as u32).wrapping_mul(7).wrapping_add(v) | 1) << bpp } else { 0 };
             match catch(|| {
-                let (held, ok) = (vt.store)(v, &mut b, ix);
+                let (held, ok) = (vt.store)(v | garbage, &mut b, ix);
                 (held, ok, (vt.load)(&b, ix))
             }) {
                 Ok((held, ok, back)) => {
-                    stores.push(json!([limbs(ix), vb(bpp, held), ok as i32, bytes_json(&b), opt_vb(bpp, back)]))
+                    let over = (bpp < 32 && (held >> bpp) != 0) as i32;
+                    stores.push(json!([limbs(ix), vb(bpp, held), ok as i32, bytes_json(&b), opt_vb(bpp, back), over]))
                 }
                 Err(p) => note_panic(&mut ps, "store", ix, &p),
             }
